@@ -35,7 +35,7 @@ ASSUMPTIONS = ["NoOverflow: every table entry fits int32 (|matrix|,|gap| <= 6 an
                "the pseudo -inf of the affine tables is modelled as `none`"]
 TECHNIQUE = ("Lean 4 proof (induction over alignment columns against a two-dimensional recurrence; refinement of the "
              "row-by-row table to the recurrence) + verified checker run on every actual output + correspondence")
-LEVEL_TEXT = ("proof, for every matrix / sequence pair, no length bound (36 theorems): "
+LEVEL_TEXT = ("proof, for every matrix / sequence pair, no length bound (43 theorems): "
               "LINEAR and AFFINE gap penalties in all three modes (global, semi-global, local): no valid alignment "
               "(affine: without abutting gaps, where a FREE terminal gap also counts as a gap: C08_noabut_covers_free_terminal_gaps "
               "shows the class is strictly smaller than all end-to-end alignments for terminal_penalty=False) has a public align.score() above the optimum and some valid alignment "
@@ -44,11 +44,16 @@ LEVEL_TEXT = ("proof, for every matrix / sequence pair, no length bound (36 theo
               "(C08_scorePub_semi[_aff]); the row-by-row tables equal the recurrences (C08_table_lin/_aff, prefix form "
               "C08_table_lin_prefix/_aff_prefix) and the reported score is the optimum (C08_reported_lin/_aff); full "
               "checker soundness for linear and affine (C08_checker_sound_lin/_aff), run on every actual output; "
-              "traceback model for linear penalties: every trace followLin yields is valid and scores the optimum "
-              "(C08_traces_valid, _valid_local), at most max_number per start (C08_traces_count), non-empty "
-              "(C08_traces_nonempty).  PARTIAL: pairwise distinctness of the model's traces is not a theorem (checked "
-              "per output by checkAll and by the oracle); the affine traceback (three-state follow_trace) has only the "
-              "executable count model nTraces; local-mode trace lists are tied by count + per-output checker")
+              "traceback on the model: LINEAR (get_trace_linear bits + follow_trace): every yielded trace is valid and "
+              "scores the optimum (C08_traces_valid, _valid_local), pairwise distinct (C08_traces_distinct, "
+              "_distinct_start), <= max_number (C08_traces_count), non-empty; LOCAL as one theorem over all start cells "
+              "(C08_traces_local: valid, optimal, non-empty entries distinct, <= max_number, non-empty list); the driver's "
+              "table-lookup run equals the recurrence run (C08_traces_lookup); AFFINE three-state follow_trace model, "
+              "global and semi-global: every yielded trace is valid, non-abutting and scores optAff "
+              "(C08_traces_valid_aff), <= max_number (C08_traces_count_aff).  Every real trace must be a member of the "
+              "model's trace list (linear and affine, all modes, capped at 300 paths).  PARTIAL: affine LOCAL traceback "
+              "and distinctness of the affine model's traces are not theorems (per-output checker + membership + count "
+              "model only); followG over affLookup = over the recurrence is not proved for affine")
 LEVEL_NOTE = ("trusted: Lean kernel, line-protocol driver, generators; int32 arithmetic modelled as Z under NoOverflow "
               "(pseudo -inf of the affine tables = none); the traceback theorems are about followLin over Rec.val, the "
               "driver runs followLin over a lookup into the table proved equal to Rec.val (C08_table_lin)")
